@@ -322,7 +322,8 @@ void ConfigCompiler::EnumerateResources(
 
 an<ConfigResource> ConfigCompiler::GetCompiledResource(
     const string& resource_id) const {
-  return graph_->resources[resource_id];
+  auto found = graph_->resources.find(resource_id);
+  return found == graph_->resources.end() ? nullptr : found->second;
 }
 
 an<ConfigResource> ConfigCompiler::Compile(const string& file_name) {
